@@ -35,11 +35,12 @@ const (
 
 func TestMain(m *testing.M) {
 	vlib.Rule("C13: histories of 5-30 steps against two master nodes (real Topology + real SendHeartbeat handler each; a raft stub applies MaxVolumeId commands to both), 2-3 modelled volume servers and 1-4 initial volumes (000/001) that may already hold keys (0,1,2,3,10..12,1000,1001,1e6). " +
-		"Steps: assign (Topology.PickForWrite, count in {0,1,2,5,499,500,501,10000}; none / the first / the last key of the range is then written), full heartbeat of a server (MaxFileKey = largest key it holds; optionally with a concurrent assign placed at the instant the handler calls SetMax or sends its response), stream end, fail-over to the other master, restart of the leader (new sequencer instance: memory = fresh counter, etcd = same store and sequence file, snowflake = same node id 2 ms later), volume growth (Topology.NextVolumeId, then registration as VolumeGrowth.grow does). Sequencer in {memory, etcd over an in-memory KeysAPI with compare-and-swap, snowflake}; with etcd an assign may be raced: the other master (own sequencer instance, same store) does a whole refill between the Get and the Set of the leader's refill and gives its keys to the same volume. " +
+		"Steps: assign (Topology.PickForWrite, count in {0,1,2,5,499,500,501,10000}; none / the first / the last key of the range is then written), full heartbeat of a server (MaxFileKey = largest key it holds; optionally with a concurrent assign placed at the instant the handler calls SetMax or sends its response), stream end, fail-over to the other master, restart of the leader (new sequencer instance: memory = fresh counter, etcd = same store and sequence file, snowflake = same node id 2 ms later), volume growth (Topology.NextVolumeId, then registration as VolumeGrowth.grow does; optionally, while the MaxVolumeId raft command is applied but Do has not returned, a heartbeat reports a volume created outside this raft log whose id is far above the maximum). Sequencer in {memory, etcd over an in-memory KeysAPI with compare-and-swap, snowflake}; with etcd an assign may be raced: the other master (own sequencer instance, same store) does a whole refill between the Get and the Set of the leader's refill and gives its keys to the same volume. " +
 		"Non-trivial = a heartbeat was processed between two assignments, or a leader change happened. Distinct = distinct written-out history.")
 	vlib.Assume("Every sequencer operation is atomic under its mutex, so the interleavings of concurrent clients at call granularity are the sequential histories; the one finer interleaving point that matters (an assign between the statements of the heartbeat handler) is generated explicitly.")
 	vlib.Assume("count 0 is turned into 1 before Topology.PickForWrite, as both callers (gRPC Assign, /dir/assign) do. Replicas of a volume hold the same keys. Only the current leader assigns; after a leader change every volume server reconnects to the new leader before it is used by it.")
 	vlib.Assume("Raft is a stub: a MaxVolumeId command is applied synchronously to every running master and replayed to a master that starts later (elections and log replay are not exercised). The etcd store is an in-memory linearizable fake; store errors are not injected.")
+	vlib.Assume("A volume created outside the raft log gets an id at least 1000 above every id known anywhere in the history, so no master can hand out that id before it has been told about it (a collision with an id no master has heard of cannot be avoided by the master and is not counted).")
 	_ = flag.Set("logtostderr", "true")
 	quietGlog()
 	vlib.Main(m)
@@ -88,6 +89,7 @@ type world struct {
 	dir     string
 	hookErr string
 	closers []func()
+	lateReports int
 	race    uint64 // etcd: the next assign is raced by a refill of this many keys on the other master
 	raced   int
 
@@ -397,13 +399,42 @@ func (w *world) restart() string {
 
 // grow asks for a new volume id and, when enough servers are connected,
 // creates the volume on them and registers it the way VolumeGrowth.grow does.
-func (w *world) grow(rp string, targets []int) (string, string) {
+//
+// late >= 0: while the MaxVolumeId raft command of this request is in flight
+// (applied, Do not yet returned), a connected server's heartbeat reports a
+// volume that was created outside this raft log (masters do not resume their
+// raft state by default, so volume servers can hold ids the masters have not
+// seen) with an id far above the current maximum.
+func (w *world) grow(rp string, targets []int, late int) (string, string) {
 	topo := w.lead().topo
+	lateDesc := ""
+	if late >= 0 && len(targets) > 0 {
+		si := targets[len(targets)-1]
+		top := uint32(topo.GetMaxVolumeId())
+		for id := range w.vols {
+			if id > top {
+				top = id
+			}
+		}
+		for id := range w.issued {
+			if id > top {
+				top = id
+			}
+		}
+		lateVid := top + 1000 + uint32(late)
+		w.raft.afterApply = func() {
+			w.vols[lateVid] = &vol{vid: lateVid, rp: rpOf("000"), on: []int{si}}
+			w.servers[si].stream.deliver(w.fullHeartbeat(si))
+			w.lateReports++
+			lateDesc = fmt.Sprintf(" || while its raft command was in flight, s%d's heartbeat reported volume %d (created outside this raft log)", si, lateVid)
+		}
+	}
 	vid, err := topo.NextVolumeId()
+	w.raft.afterApply = nil
 	if err != nil {
 		return "", fmt.Sprintf("NextVolumeId: %v", err)
 	}
-	desc := fmt.Sprintf("grow(rp=%s) -> volume id %d", rp, vid)
+	desc := fmt.Sprintf("grow(rp=%s) -> volume id %d%s", rp, vid, lateDesc)
 	if _, ok := w.vols[uint32(vid)]; ok {
 		return desc, fmt.Sprintf("%s, but a volume with that id exists", desc)
 	}
@@ -548,7 +579,11 @@ func runHistory(t *rapid.T, kind string) {
 					connected = append(connected, si)
 				}
 			}
-			desc, bad = w.grow(rapid.SampledFrom([]string{"000", "001"}).Draw(t, "rp"), connected)
+			late := -1
+			if rapid.IntRange(0, 2).Draw(t, "heartbeatDuringRaftCommand") == 0 {
+				late = rapid.IntRange(0, 3).Draw(t, "lateVolumeIdOffset")
+			}
+			desc, bad = w.grow(rapid.SampledFrom([]string{"000", "001"}).Draw(t, "rp"), connected, late)
 		case "end":
 			si := rapid.IntRange(0, nServers-1).Draw(t, "server")
 			if w.servers[si].stream == nil {
@@ -577,6 +612,9 @@ func runHistory(t *rapid.T, kind string) {
 	}
 	if w.grows > 0 {
 		classes = append(classes, "hist-volume-growth")
+	}
+	if w.lateReports > 0 {
+		classes = append(classes, "hist-larger-volume-id-reported-during-raft-command")
 	}
 	if w.raced > 0 {
 		classes = append(classes, "hist-etcd-refill-raced-by-other-master")
